@@ -188,6 +188,27 @@ func (p *Probe) HandleCall(from gen.PID, ref gen.Ref, req any) (any, error) {
 	return nil, nil
 }
 
+// with SetSplitHandle(true) messages and requests addressed by name or alias arrive through
+// callbacks of their own: same hooks, same serialisation bookkeeping
+func (p *Probe) HandleMessageName(name gen.Atom, from gen.PID, m any) error {
+	return p.HandleMessage(from, m)
+}
+func (p *Probe) HandleMessageAlias(alias gen.Alias, from gen.PID, m any) error {
+	return p.HandleMessage(from, m)
+}
+func (p *Probe) HandleCallName(name gen.Atom, from gen.PID, ref gen.Ref, req any) (any, error) {
+	if p.H.Env != nil {
+		p.H.Env.Probe("split-handle-callback")
+	}
+	return p.HandleCall(from, ref, req)
+}
+func (p *Probe) HandleCallAlias(alias gen.Alias, from gen.PID, ref gen.Ref, req any) (any, error) {
+	if p.H.Env != nil {
+		p.H.Env.Probe("split-handle-callback")
+	}
+	return p.HandleCall(from, ref, req)
+}
+
 func (p *Probe) HandleEvent(ev gen.MessageEvent) error {
 	h := p.H
 	h.enter(p.i, "event")
